@@ -11,7 +11,9 @@ import subprocess
 import sys
 
 VERIF = os.path.dirname(os.path.dirname(os.path.abspath(__file__)))
-REPO = "/repo"
+REPO = os.environ.get("SELFTEST_REPO", "/repo")     # a scratch git worktree of /repo keeps /repo itself untouched (own fact cache through VCHECK_*)
+if REPO != "/repo":
+    os.environ.update(VCHECK_REPO=REPO, VCHECK_WORK=REPO.rstrip("/") + "-vwork", VCHECK_OUT=REPO.rstrip("/") + "-vout")
 sys.path.insert(0, os.path.dirname(os.path.abspath(__file__)))
 from mutants import MUTANTS  # noqa: E402
 
@@ -31,6 +33,10 @@ def main():
         print("refusing: /repo has uncommitted changes:\n" + dirty)
         sys.exit(2)
     results = []
+    shard = [a for a in sys.argv[1:] if a.startswith("--shard=")]
+    if shard:
+        i, n = map(int, shard[0].split("=")[1].split("/"))
+        MUTANTS = [m for k, m in enumerate(MUTANTS) if k % n == i]
     for m in MUTANTS:
         if sel and not any(s in m["name"] for s in sel):
             continue
@@ -73,7 +79,7 @@ def main():
         finally:
             sh("git -C %s checkout -- ." % REPO)
         ok = all(v in ("fired", "silent") for v in outcome.values())
-        print("MUTANT %-40s %s  %s" % (m["name"], "ok  " if ok else "FAIL", outcome))
+        print("MUTANT %-40s %s  %s" % (m["name"], "ok  " if ok else "FAIL", outcome), flush=True)
         results.append((m["name"], outcome))
     bad = [r for r in results if r[1] == "anchor-missing" or (isinstance(r[1], dict) and not all(v in ("fired", "silent") for v in r[1].values()))]
     print("%d mutants, %d not as expected" % (len(results), len(bad)))
